@@ -171,7 +171,7 @@ Proof.
   destruct (b64_mult_finite_inv s x Hfin) as (Hlt & _ & _).
   destruct (b64_mult_spec s x Hlt) as (Hp & _).
   unfold float_to_fp. rewrite fp_bounds_ok by assumption. simpl bind. rewrite Hs. simpl bind.
-  rewrite py_int_finite by assumption. simpl bind. unfold fp_spec. simpl fst. simpl snd.
+  rewrite py_int_finite by assumption. simpl bind. unfold fp_spec; change saturate with clamp; change range_min with fmt_min; change range_max with fmt_max. simpl fst. simpl snd.
   f_equal. f_equal. rewrite Hp. apply scaled_trunc_all; assumption.
 Qed.
 
@@ -218,7 +218,7 @@ Lemma fp_spec_saturates_high :
     fp_spec signed n_bits n_frac r = fmt_max signed n_bits.
 Proof.
   intros signed n_bits n_frac r Hn H. apply Ztrunc_le in H. rewrite Ztrunc_IZR in H.
-  pose proof (fmt_min_le_max signed n_bits Hn). unfold fp_spec, clamp. lia.
+  pose proof (fmt_min_le_max signed n_bits Hn). unfold fp_spec; change saturate with clamp; change range_min with fmt_min; change range_max with fmt_max; unfold clamp. lia.
 Qed.
 
 Lemma fp_spec_saturates_low :
@@ -227,7 +227,7 @@ Lemma fp_spec_saturates_low :
     fp_spec signed n_bits n_frac r = fmt_min signed n_bits.
 Proof.
   intros signed n_bits n_frac r Hn H. apply Ztrunc_le in H. rewrite Ztrunc_IZR in H.
-  pose proof (fmt_min_le_max signed n_bits Hn). unfold fp_spec, clamp. lia.
+  pose proof (fmt_min_le_max signed n_bits Hn). unfold fp_spec; change saturate with clamp; change range_min with fmt_min; change range_max with fmt_max; unfold clamp. lia.
 Qed.
 
 Lemma Ztrunc_within_one : forall y : R, (Rabs (IZR (Ztrunc y) - y) < 1)%R.
@@ -325,7 +325,7 @@ Qed.
 Lemma representable_abs :
   forall signed n_bits v, 1 <= n_bits -> representable signed n_bits v -> Z.abs v < 2 ^ n_bits.
 Proof.
-  intros signed n_bits v Hn. unfold representable, fmt_min, fmt_max.
+  intros signed n_bits v Hn. unfold representable; change saturate with clamp; change range_min with fmt_min; change range_max with fmt_max; unfold fmt_min, fmt_max.
   assert (0 < 2 ^ (n_bits - 1)) by (apply Z.pow_pos_nonneg; lia).
   assert (2 ^ n_bits = 2 * 2 ^ (n_bits - 1)).
   { replace n_bits with (n_bits - 1 + 1) at 1 by lia. rewrite Z.pow_add_r by lia. lia. }
@@ -345,7 +345,7 @@ Proof.
   assert (Hback : (B2R y * bpow2 n_frac = IZR v)%R).
   { rewrite Hry, Rmult_assoc, <- bpow_plus. replace (- n_frac + n_frac) with 0 by lia. simpl. ring. }
   rewrite float_to_fp_exact; [| lia |].
-  - unfold fp_spec. rewrite Hback, Ztrunc_IZR. f_equal. apply clamp_id. exact Hrep.
+  - unfold fp_spec; change saturate with clamp; change range_min with fmt_min; change range_max with fmt_max. rewrite Hback, Ztrunc_IZR. f_equal. apply clamp_id. exact Hrep.
   - split; [assumption|].
     destruct (py_pow2_spec n_frac) as (s & Hs & Hrs & Hsf); [lia|].
     exists s. split; [assumption|].
@@ -596,7 +596,7 @@ Proof.
   unfold np_scaled_clipped. rewrite Hs. simpl bind. rewrite Hlo. simpl bind. rewrite Hhi. simpl bind.
   simpl fst. simpl snd.
   destruct (np_elem_generic signed n_bits (b64_mult x s) lo hi ltac:(lia) Hyf Hlof Hhif HL HH HMH) as (Hnan & Heq).
-  rewrite Hnan, Heq. f_equal. unfold fp_spec. f_equal.
+  rewrite Hnan, Heq. f_equal. unfold fp_spec; change saturate with clamp; change range_min with fmt_min; change range_max with fmt_max. f_equal.
   rewrite Hy, (Rmult_comm (B2R x)). exact Htr.
 Qed.
 
@@ -1030,7 +1030,7 @@ Proof.
   destruct Hv as ((Hn1 & Hn2) & (Hf1 & Hf2)).
   unfold float_to_fix. rewrite Hcs. simpl bind. simpl fst. simpl snd.
   fold (sbit signed). rewrite <- fmt_max_int.
-  unfold fp_spec.
+  unfold fp_spec; change saturate with clamp; change range_min with fmt_min; change range_max with fmt_max.
   set (T := Ztrunc (B2R x * bpow2 n_frac)) in *.
   set (mn := fmt_min signed n_bits) in *. set (mx := fmt_max signed n_bits) in *.
   pose proof (fmt_min_lt_max signed n_bits Hn1) as Hmm. fold mn mx in Hmm.
@@ -1105,3 +1105,93 @@ Proof.
   split; [assumption|]. split; [assumption|]. split; [vm_compute; discriminate|].
   apply roundtrip_exact; try assumption; lia.
 Qed.
+
+(* ------------------------------------------------------------------ audit follow-up *)
+(* the Spec's own statement of the range and of saturation is the model's *)
+Lemma spec_range_is_model_range :
+  (forall s n, range_min s n = fmt_min s n) /\ (forall s n, range_max s n = fmt_max s n) /\
+  (forall lo hi i, saturate lo hi i = clamp lo hi i).
+Proof. repeat split. Qed.
+
+Lemma in_domain_scale_bound_aux : forall n_frac (x : b64), in_domain n_frac x -> n_frac <= 1023.
+Proof.
+  intros n_frac x (_ & s & Hs & _). unfold py_pow2 in Hs.
+  destruct (1024 <=? n_frac) eqn:E; [discriminate|]. apply Z.leb_gt in E. lia.
+Qed.
+
+(* `in_domain` (phrased with the model's 2.0**n_frac and product) as a condition on real numbers *)
+Lemma py_pow2_tiny :
+  forall k, k < -1074 ->
+  exists s, py_pow2 k = Ok s /\ is_finite s = true /\ (Rabs (B2R s) <= bpow2 (-1074))%R.
+Proof.
+  intros k Hk. unfold py_pow2.
+  destruct (1024 <=? k) eqn:E; [apply Z.leb_le in E; lia|].
+  eexists; split; [reflexivity|].
+  generalize (Bldexp_correct 53 1024 prec64_gt_0 prec64_lt_emax mode_NE b64_one k).
+  unfold b64_one. rewrite Bone_correct, Rmult_1_l.
+  change (SpecFloat.fexp 53 1024) with fexp64. change (round_mode mode_NE) with ZnearestE.
+  assert (Hr : (Rabs (rnd64 (bpow2 k)) <= bpow2 (-1074))%R).
+  { apply abs_round_le_generic; auto with typeclass_instances.
+    - apply generic_format_FLT_bpow; [reflexivity|lia].
+    - rewrite Rabs_pos_eq by apply bpow_ge_0. apply bpow_le. lia. }
+  rewrite Rlt_bool_true.
+  - intros (H1 & H2 & _). rewrite H2, H1. split; [apply is_finite_Bone|exact Hr].
+  - apply Rle_lt_trans with (1 := Hr). apply bpow_lt. lia.
+Qed.
+
+Lemma in_domain_real :
+  forall n_frac (x : b64),
+    in_domain n_frac x <->
+    is_finite x = true /\ n_frac <= 1023 /\
+    (-1074 <= n_frac -> (Rabs (rnd64 (B2R x * bpow2 n_frac)) < bpow2 1024)%R).
+Proof.
+  intros n_frac x. split.
+  - intros Hd. pose proof (in_domain_scale_bound_aux n_frac x Hd) as Hub.
+    destruct Hd as (Hx & s & Hs & Hfin).
+    split; [assumption|]. split; [assumption|]. intros Hlo.
+    destruct (py_pow2_spec n_frac) as (s' & Hs' & Hrs & _); [lia|].
+    rewrite Hs in Hs'. injection Hs' as <-.
+    destruct (b64_mult_finite_inv s x Hfin) as (Hlt & _ & _).
+    rewrite Hrs, Rmult_comm in Hlt. exact Hlt.
+  - intros (Hx & Hub & Hreal). split; [assumption|].
+    destruct (Z_lt_le_dec n_frac (-1074)) as [Hlo|Hlo].
+    + destruct (py_pow2_tiny n_frac Hlo) as (s & Hs & Hsf & Hsb).
+      exists s. split; [assumption|].
+      assert (Hxb : (Rabs (B2R x) < bpow2 1024)%R) by apply (abs_B2R_lt_emax 53 1024).
+      destruct (b64_mult_spec s x) as (_ & Hf).
+      * apply Rle_lt_trans with (bpow2 (-50)); [|apply bpow_lt; lia].
+        apply abs_round_le_generic; auto with typeclass_instances.
+        { apply generic_format_FLT_bpow; [reflexivity|lia]. }
+        rewrite Rabs_mult. replace (-50) with (-1074 + 1024) by lia. rewrite bpow_plus.
+        apply Rmult_le_compat; try apply Rabs_pos; [assumption|lra].
+      * rewrite Hf, Hsf, Hx. reflexivity.
+    + destruct (py_pow2_spec n_frac) as (s & Hs & Hrs & Hsf); [lia|].
+      exists s. split; [assumption|].
+      destruct (b64_mult_spec s x) as (_ & Hf).
+      * rewrite Hrs, Rmult_comm. apply Hreal. assumption.
+      * rewrite Hf, Hsf, Hx. reflexivity.
+Qed.
+
+(* hence: in the domain the exactly scaled value is below 2^1024 in magnitude *)
+Lemma in_domain_scaled_bound :
+  forall n_frac (x : b64), in_domain n_frac x -> -1074 <= n_frac ->
+    (Rabs (B2R x * bpow2 n_frac) < bpow2 1024)%R.
+Proof.
+  intros n_frac x Hd Hlo. apply in_domain_real in Hd. destruct Hd as (_ & _ & H). specialize (H Hlo).
+  destruct (Rlt_or_le (Rabs (B2R x * bpow2 n_frac)) (bpow2 1024)) as [Hlt|Hge]; [assumption|exfalso].
+  assert (bpow2 1024 <= Rabs (rnd64 (B2R x * bpow2 n_frac)))%R; [|lra].
+  apply abs_round_ge_generic; auto with typeclass_instances.
+  apply generic_format_FLT_bpow; [reflexivity|lia].
+Qed.
+
+(* the repaired array converter on the witness of the refutations, and one ulp either side of 2^63 *)
+Lemma numpy_repaired_examples :
+  np_float_to_fix true 64 0 x_1e30 = Ok (2 ^ 63 - 1) /\
+  np_float_to_fix false 64 0 x_1e30 = Ok (2 ^ 64 - 1) /\
+  float_to_fp true 64 0 (b64_of_bits 0x43dfffffffffffff) = Ok (2 ^ 63 - 1024) /\
+  np_float_to_fix true 64 0 (b64_of_bits 0x43dfffffffffffff) = Ok (2 ^ 63 - 1024) /\
+  float_to_fp true 64 0 (b64_of_bits 0x43e0000000000000) = Ok (2 ^ 63 - 1) /\
+  np_float_to_fix true 64 0 (b64_of_bits 0x43e0000000000000) = Ok (2 ^ 63 - 1) /\
+  float_to_fp true 64 0 (b64_of_bits 0x43e0000000000001) = Ok (2 ^ 63 - 1) /\
+  np_float_to_fix true 64 0 (b64_of_bits 0x43e0000000000001) = Ok (2 ^ 63 - 1).
+Proof. vm_compute. repeat split; reflexivity. Qed.
